@@ -6,7 +6,8 @@
 //	O (oracle, on the implementation): once a poll has seen the cancellation the read must return
 //	  an error matching context.Canceled and a nil *model.Context; if no poll saw it the read must
 //	  finish like the uncancelled read; the number of polls at/after the flip ("late polls") must
-//	  stay within the model's stage bound.
+//	  stay within the model's stage bound (class cancel-swallowed-by-xref-repair when the excess comes from
+//	  the xref repair path: the defect fixed in pdfcpu commit 1364969e; cancel-late-polls otherwise).
 //	K (correspondence): the poll trace of the uncancelled read (call stacks of every Err() call)
 //	  is parsed into the model's `shape`; the extracted Coq model then has to predict, for every
 //	  k, the class of the result, the exact number of late polls and the total number of polls.
@@ -514,15 +515,6 @@ func main() {
 			}
 			totalS := bs.polls
 			nfile := 0
-			if shErr == nil && sh.firstXk >= 0 {
-				// calibration: how many objects the relaxed xref repair walks for this file
-				cc := &cctx{Context: context.Background(), k: sh.firstXk}
-				cr := readWith(d.b, true, cc)
-				nfile = cr.late - 2
-				if nfile < 0 {
-					shErr = errors.New("calibration failed")
-				}
-			}
 			if os.Getenv("C10_DEBUG") != "" && shErr == nil {
 				fmt.Fprintln(os.Stderr, "SHAPE", d.name, mode, strings.Join(sh.args(relaxed, nfile, -1), " "))
 			}
@@ -593,7 +585,16 @@ func main() {
 					case res.class == "ok":
 						r.OracleFail("cancel-ignored", in, fmt.Sprintf("read finished although %d polls saw the cancelled context", res.late))
 					case res.class != "ctx":
-						r.OracleFail("cancel-error-not-context", in, fmt.Sprintf("err=%q does not match context.Canceled", res.err))
+						class, site := "cancel-error-not-context", ""
+						if len(res.events) > 0 {
+							site = res.events[0].frames[0]
+						}
+						if res.late == 1 && (site == "parseXRefStreamOrRepair" || site == "processObject" || site == "ParseObjectContext") {
+							// the only poll that saw the cancellation is a probe after an input error: the probe
+							// stops the repair and the input error is returned instead of the context's
+							class = "cancel-at-probe-returns-input-error"
+						}
+						r.OracleFail(class, in, fmt.Sprintf("err=%q does not match context.Canceled (poll that saw the cancellation: %s)", res.err, site))
 					case !res.docNil:
 						r.OracleFail("cancel-returned-document", in, "non-nil *model.Context returned with the context error")
 					case k == 0 && res.late != 1:
